@@ -98,7 +98,10 @@ class ParserCore(Ctx):
 
     def _reset(self) -> None:
         self._initialize_caches()
-        self.keywords: set[str] = set(self.config.keywords or ())
+        keywords = self.config.keywords or ()
+        if self.config.ignorecase:
+            keywords = tuple(k.upper() for k in keywords)
+        self.keywords: set[str] = set(keywords)
         self.semantics = self.config.semantics
         if self.semantics and hasattr(self.semantics, 'set_context'):
             self.semantics.set_context(self)
